@@ -603,11 +603,15 @@ package fsm
 //@   ensures [C09.funcs.pair] (req.KeysOnly ==> isFunc(fill, "fsm.addKeyOnly") && isFunc(sf, "fsm.sizeKeyOnly")) && (!req.KeysOnly && req.CountOnly ==> isFunc(fill, "fsm.addCountOnly") && isFunc(sf, "fsm.sizeCountOnly")) && (!req.KeysOnly && !req.CountOnly ==> isFunc(fill, "fsm.addKVPair") && isFunc(sf, "fsm.sizeKVPair"))
 //@   modifies nothing
 // what the size estimates are
+// (parameters are named by POSITION here - first the key, then the value, as the filler calls them -
+// so that swapping the names in the source does not satisfy the clause)
 //@ func sizeKVPair
-//@   ensures [C09.size.pair] result == len(key) + len(value)
+//@   params k, v
+//@   ensures [C09.size.pair] result == len(k) + len(v)
 //@   modifies nothing
 //@ func sizeKeyOnly
-//@   ensures [C09.size.key] result == len(key)
+//@   params k, v
+//@   ensures [C09.size.key] result == len(k)
 //@   modifies nothing
 //@ func sizeCountOnly
 //@   ensures [C09.size.count] result == 0
@@ -755,7 +759,7 @@ package fsm
 //@ func (*FSM).getRecoverer
 //@   maypanic
 //@   requires p != nil
-//@   ensures [C08.recoverer.type] (recoveryType == 0 ==> typeIs(result, *snapshot) && asType(result, *snapshot) != nil && asType(result, *snapshot).fsm == p) && (recoveryType == 1 ==> typeIs(result, *checkpoint) && asType(result, *checkpoint) != nil && asType(result, *checkpoint).fsm == p) && (recoveryType == 0 || recoveryType == 1)
+//@   ensures [C08.recoverer.type+C03] (recoveryType == 0 ==> typeIs(result, *snapshot) && asType(result, *snapshot) != nil && asType(result, *snapshot).fsm == p) && (recoveryType == 1 ==> typeIs(result, *checkpoint) && asType(result, *checkpoint) != nil && asType(result, *checkpoint).fsm == p) && (recoveryType == 0 || recoveryType == 1)
 //@   ensures fresh(asType(result, *snapshot)) || fresh(asType(result, *checkpoint))
 //@   modifies nothing
 
